@@ -1064,6 +1064,9 @@ pub fn splice(
                 rule: "N7",
             });
         }
+        for a in &cl.attrs {
+            edits.push(Edit { start: fr.item_start, end: fr.item_start, text: format!("{a}\n    "), rule: "proof-attr" });
+        }
         let mut c = String::from("\n");
         if !cl.requires.trim().is_empty() {
             c.push_str("    requires\n");
